@@ -13,6 +13,10 @@ R5  limits are tested before growth: mkstate() (maximum_mns), new_rule() (MAX_RU
 R6  flexend(): a non-zero status with a created output file reaches unlink(env.outfilename).
 R10 argv is only read below argc: every load of s->argv[E] in the option scanner (and of main's own argv[E]) is reached only
     with 0 <= E < argc, decided by interpreting the function for all small (index, argc); argv[0] needs argc >= 1 only.
+R11 growth guards are tight: every test K + k >= C that directly controls the growth of capacity C is interpreted for all
+    small (K, C); on the paths that do not grow, every store into an array of C's family with a computable index is below C.
+R12 every input file is opened: the first set_input_file() gets input_files[0] (or NULL) once, and yywrap(), interpreted for
+    1..5 files, opens *++input_files exactly while files remain and returns 0 iff it opened one.
 R8  arrays that share a capacity grow together: for every (capacity global C, array global G) pair derived from the
     allocation sizes in the IR, each function that increases C reallocates G (with a size that reads C) on every
     returning path; the arm where an optional G is null is exempt.
@@ -1078,7 +1082,11 @@ def controls(ctx):
     c = Collect(); r10(p, c, anchors=False)
     expect_control(ctx, 'C16.R10', c, ['bad_scanopt:argv[index+1]:not-below-argc', 'bad_scanopt_entry:argv[index]:not-below-argc'], must_hold=2)
     c = Collect(); r8(p, c)
-    expect_control(ctx, 'C16.R8', c, ['bad_grow:cur_max:forgotten', 'bad_grow_early_return:cur_max2:late'], must_hold=3)
+    expect_control(ctx, 'C16.R8', c, ['bad_grow:cur_max:forgotten', 'bad_grow_early_return:cur_max2:late', 'bad_grow_source:cur_max3:arr_a:realloc-of-arr_b', 'bad_grow_source:cur_max3:arr_b:fresh-allocation'], must_hold=3)
+    c = Collect(); r11(p, c)
+    expect_control(ctx, 'C16.R11', c, ['bad_guard:cur_max:guard-not-tight'], must_hold=2)
+    c = Collect(); r12(p, c, anchors=False)
+    expect_control(ctx, 'C16.R12', c, ['yywrap:input-file-count'], must_hold=1)
 
 # ================================================================ driver
 
@@ -1199,6 +1207,25 @@ def r8(prog, rep, exceptions=R8_EXCEPT, floor_note=True):
                 leak = [y for y in cfg.reach(S, avoid=rs, edge_filter=filt) if y.op == 'ret']
                 if rs and not leak:
                     rep.ok('C16.R8', '%s: %s grows@%s -> %s reallocated@%s' % (f.name, C, S.line, G, rs[0].line))
+                    continue
+                # say what the function does to G instead, when it assigns it from another allocation
+                odd = None
+                for y in f.ins:
+                    if y.op != 'store' or res.loc(y.ops[1]) != ('global', G): continue
+                    d = f.def_of(flow.strip_casts(f, y.ops[0]))
+                    if d is None or d.op != 'call' or d.callee not in ALLOC_SIZE_ARG: continue
+                    if d.callee in REALLOCS:
+                        old_ = f.def_of(flow.strip_casts(f, d.ops[REALLOCS[d.callee]]))
+                        src = res.loc(old_.ops[0]) if old_ is not None and old_.op == 'load' else None
+                        if src != ('global', G):
+                            odd = (y, 'realloc-of-%s' % (src[1] if src and src[0] == 'global' else 'another-block'),
+                                   '%s is assigned the reallocation of %s: the two arrays then share one block and the old elements of %s are lost' % (
+                                       G, ir.loc_str(src) if src else 'another block', G))
+                    else:
+                        odd = (y, 'fresh-allocation', '%s is assigned a fresh %s() block instead of a reallocation of itself: the elements created so far are lost (and the old block leaks)' % (G, d.callee))
+                if odd is not None:
+                    rep.fail('C16.R8', key('C16.R8', f, '%s:%s:%s' % (C, G, odd[1])), where(odd[0]), '%s() increases %s; %s' % (f.name, C, odd[2]),
+                             replay_input='a specification with more than %s start conditions / elements of that family' % C)
                 else:
                     rep.fail('C16.R8', kk, where(S), '%s() increases %s but %s %s, which is allocated with %s elements (%s): the next access up to the new capacity writes past the block' % (
                         f.name, C, 'can return without reallocating' if rs else 'does not reallocate', G, C,
@@ -1310,6 +1337,194 @@ def r10(prog, rep, anchors=True):
     rep.note('C16.R10: %d feasible arrivals at argv reads evaluated' % nev)
     return n
 
+# ================================================================ R11  growth guards are tight
+
+def growth_guards(prog, fam):
+    """[(C, K, function, branch, label of the growing edge, offset k)] for tests  K + k >= C  (any spelling) whose taken
+    edge directly controls a store that increases C or a call to a function that does"""
+    out = []
+    for C in sorted(fam):
+        gs = grow_stores(prog, C)
+        if not gs: continue
+        growers = {g.fn.name for g in gs}
+        CA = ('load', ('global', C))
+        for f in fns(prog):
+            res = Resolver(f); ucfg = None
+            for b in f.blocks:
+                br = b.ins[-1]
+                be = branch_edges(f, br) if br.op == 'br' else None
+                if be is None: continue
+                ic, tl, fl = be
+                l0 = lin(f, ic.ops[0], res); l1 = lin(f, ic.ops[1], res)
+                if l0 is None or l1 is None or (CA not in l0 and CA not in l1): continue
+                # bring to  kside (>=|>|<|<=) cside  with C only on the cside
+                if CA in l1 and CA not in l0: kside, cside, pred = l0, l1, ic.pred
+                elif CA in l0 and CA not in l1: kside, cside, pred = l1, l0, {'sge': 'sle', 'sgt': 'slt', 'sle': 'sge', 'slt': 'sgt', 'uge': 'ule', 'ugt': 'ult', 'ule': 'uge', 'ult': 'ugt'}.get(ic.pred)
+                else: continue
+                if pred is None or cside.get(CA) != 1 or any(a != 1 and a != CA for a in cside): continue
+                lab = tl if pred in ('sge', 'sgt', 'uge', 'ugt') else fl if pred in ('sle', 'slt', 'ule', 'ult') else None
+                if lab is None: continue
+                atoms = [a for a in kside if a != 1]
+                if len(atoms) != 1 or kside[atoms[0]] != 1 or atoms[0][0] != 'load' or atoms[0][1][0] != 'global': continue
+                ucfg = ucfg or prog.cfg(f, cut=False)
+                for bb in f.blocks:
+                    if not any((x in gs) or (x.op == 'call' and x.callee in growers) for x in bb.ins): continue
+                    if any(b2 is br and t2 is f.bmap[lab] for b2, t2 in ucfg.control_deps(bb)):
+                        out.append((C, atoms[0][1][1], f, br, lab)); break
+    return out
+
+def r11(prog, rep):
+    """for every growth guard: interpret the function from the guard for all small (K, C); on every path that does not
+    grow, every store into an array of C's family with a computable index uses an index < C"""
+    from common import AnalysisBroken
+    from genutil import MiniEval, EvalUnknown, PathEnd
+    fam = {C: gs for C, gs in capacity_families(prog).items() if not any(c_ == C for c_, _g in R8_EXCEPT)}
+    guards = growth_guards(prog, fam)
+    n = 0; table = []
+    for C, K, f, br, lab in guards:
+        n += 1
+        res = Resolver(f)
+        growers = {g.fn.name for g in grow_stores(prog, C)}
+        kk = key('C16.R11', f, '%s:guard-not-tight' % C)
+        kcell = flow._freeze(('global', K)); ccell = flow._freeze(('global', C))
+        # family element stores of this function: instruction -> (array, index value)
+        fstores = {}
+        for x in f.ins:
+            if x.op != 'store': continue
+            d = f.def_of(flow.strip_casts(f, x.ops[1]))
+            for _ in range(4):          # member of a struct/union element
+                if d is not None and d.op == 'getelementptr' and len(d.ops) >= 2 and f.def_of(flow.strip_casts(f, d.ops[0])) is not None \
+                   and f.def_of(flow.strip_casts(f, d.ops[0])).op != 'load' and d.ops[1] == ('int', 0): d = f.def_of(flow.strip_casts(f, d.ops[0]))
+                else: break
+            if d is None or d.op != 'getelementptr' or len(d.ops) < 2: continue
+            b_ = f.def_of(flow.strip_casts(f, d.ops[0]))
+            if b_ is not None and b_.op == 'load' and res.loc(b_.ops[0])[0] == 'global' and res.loc(b_.ops[0])[1] in fam[C]:
+                fstores[x] = (res.loc(b_.ops[0])[1], d.ops[1])
+        bad = None; seen = 0; ungrown = 0
+        try:
+            for c in range(1, 9):
+                for k in range(0, c + 2):
+                    def hook(x, av, mem):
+                        if isinstance(x.callee, str) and x.callee in growers: raise PathEnd()
+                        return None
+                    state = {'ev': None}
+                    def observe(x, regs, mem, c=c, k=k):
+                        nonlocal bad, seen
+                        if res.loc(x.ops[1]) == ('global', C): raise PathEnd()       # grown in place: what follows is within the new capacity
+                        fs = fstores.get(x)
+                        if fs is None: return
+                        e = state['ev'].val(fs[1], regs)
+                        if not isinstance(e, int): return
+                        seen += 1
+                        cv = mem.get(ccell)
+                        if isinstance(cv, int) and e >= cv and bad is None: bad = (k, c, fs[0], e, x)
+                    ev = MiniEval(prog, hook, max_steps=300000, max_paths=20000, memo=True, inline=False, observe=observe, max_visits=3)
+                    state['ev'] = ev
+                    outs = ev.run(f, br.blk, 0, {}, {kcell: k, ccell: c})
+                    ungrown += sum(1 for o in outs if o[0] in ('ret', 'cut'))
+        except EvalUnknown as ex:
+            raise AnalysisBroken('C16.R11: cannot evaluate %s() from its growth guard on %s (%s)' % (f.name, C, ex))
+        if not ungrown:
+            raise AnalysisBroken('C16.R11: the guard `%s vs %s` in %s() sends every evaluated path into the growth; it is not a function of (%s, %s) alone' % (K, C, f.name, K, C))
+        table.append('%s/%s in %s@%s (%d stores checked)' % (K, C, f.name, br.line, seen))
+        if bad:
+            k, c, G, e, x = bad
+            rep.fail('C16.R11', kk, where(br), 'the growth test on %s in %s() is not tight: with %s = %d and %s = %d it does not grow, and %s[%d] is then stored (%s) although the arrays of the family hold %d elements: '
+                     'a write one element past every table of the family' % (C, f.name, K, k, C, c, G, e, where(x), c),
+                     replay_input='a specification with exactly %s + 1 elements of that kind (e.g. 40 start conditions): valgrind reports the invalid write' % C)
+        else:
+            rep.ok('C16.R11', '%s: guard on %s/%s @%s: no store at an index >= %s on any path that does not grow (%d stores, %s in 0..%s+1, %s in 1..8)' % (f.name, K, C, br.line, C, seen, K, C, C))
+    rep.note('C16.R11 growth guards derived from the IR: ' + ' | '.join(table))
+    return n
+
+# ================================================================ R12  every input file is opened
+
+def r12(prog, rep, anchors=True):
+    """the cursor over input_files[]: the first file is opened once outside yywrap() with input_files[0] (NULL when there
+    is none), and yywrap() opens *++input_files exactly while files remain, so that a run opens num_input_files files"""
+    from common import AnalysisBroken
+    from genutil import MiniEval, EvalUnknown
+    yw = prog.fn('yywrap')
+    if yw is None:
+        if anchors: rep.broken('C16.R12: yywrap() not found')
+        return 0
+    n = 0
+    kk = key('C16.R12', yw, 'input-file-count')
+    # ---- first call site(s) outside yywrap
+    first = [c for c in prog.callers('set_input_file') if c.fn is not yw]
+    n += 1
+    k1 = 'C16.R12:%s:%s:first-input-file' % (srcfile(first[0].fn) if first else '?', first[0].fn.name if first else '?')
+    ok_first = False
+    if len(first) == 1:
+        f = first[0].fn; res = Resolver(f)
+        # the argument is input_files[0] or NULL, chosen by a test of num_input_files > 0
+        vals = []
+        a = first[0].ops[0]; d = f.def_of(flow.strip_casts(f, a))
+        work = [a]
+        while work:
+            v = work.pop(); d = f.def_of(flow.strip_casts(f, v)) if v[0] == 'reg' else None
+            if v == ('null',): vals.append('NULL')
+            elif d is not None and d.op == 'phi': work += list(d.ops)
+            elif d is not None and d.op == 'select': work += list(d.ops[1:])
+            elif d is not None and d.op == 'load':
+                g = f.def_of(flow.strip_casts(f, d.ops[0]))
+                if g is not None and g.op == 'getelementptr' and len(g.ops) == 2 and g.ops[1] == ('int', 0) and res.loc(flow.strip_casts(f, g.ops[0])) == ('deref', ('global', 'input_files')):
+                    vals.append('input_files[0]')
+                elif res.loc(d.ops[0]) == ('deref', ('global', 'input_files')): vals.append('input_files[0]')
+                else: vals.append('?')
+            else: vals.append('?')
+        ok_first = sorted(set(vals)) in (['NULL', 'input_files[0]'], ['input_files[0]'])
+        st_n = [x for x in f.ins if x.op == 'store' and res.loc(x.ops[1]) == ('global', 'num_input_files')]
+        st_f = [x for x in f.ins if x.op == 'store' and res.loc(x.ops[1]) == ('global', 'input_files')]
+        cfg = prog.cfg(f)
+        ok_first = ok_first and bool(st_n) and bool(st_f) and all(cfg.ins_dominates(x, first[0]) for x in st_n + st_f)
+        if ok_first: rep.ok('C16.R12', '%s opens the first input once: set_input_file(%s)@%s after num_input_files/input_files are set' % (f.name, ' or '.join(sorted(set(vals))), first[0].line))
+    if not ok_first:
+        rep.fail('C16.R12', k1, where(first[0]) if first else fwhere(yw), 'the first input file is not opened exactly once with input_files[0] (or NULL) after num_input_files and input_files have been set (%d call sites of set_input_file() outside yywrap())' % len(first))
+    # ---- yywrap, evaluated
+    n += 1
+    res = Resolver(yw)
+    ncell = flow._freeze(('global', 'num_input_files'))
+    def one(nval):
+        state = {'open': 0, 'arg_ok': True}
+        def hook(x, av, mem):
+            if x.callee == 'set_input_file':
+                state['open'] += 1
+                # the file opened is *++input_files: the argument is loaded through input_files after it was advanced by one
+                d = yw.def_of(flow.strip_casts(yw, x.ops[0]))
+                adv = [y for y in yw.ins if y.op == 'store' and res.loc(y.ops[1]) == ('global', 'input_files')]
+                good = d is not None and d.op == 'load' and len(adv) == 1 and prog.cfg(yw).ins_dominates(adv[0], x)
+                if good:
+                    g = yw.def_of(flow.strip_casts(yw, adv[0].ops[0]))
+                    good = g is not None and g.op == 'getelementptr' and len(g.ops) == 2 and g.ops[1] == ('int', 1) and res.loc(flow.strip_casts(yw, g.ops[0])) == ('deref', ('global', 'input_files')) \
+                           and flow.strip_casts(yw, d.ops[0]) == ('reg', g.res)
+                state['arg_ok'] = state['arg_ok'] and good
+            return None
+        ev = MiniEval(prog, hook, max_steps=20000, max_paths=64, memo=True, inline=False)
+        outs = [o for o in ev.run(yw, yw.entry, 0, {}, {ncell: nval}) if o[0] == 'ret']
+        if len(outs) != 1 or not isinstance(outs[0][1], int) or not isinstance(outs[0][2].get(ncell), int):
+            raise AnalysisBroken('C16.R12: yywrap() is not a function of num_input_files alone (num_input_files = %d)' % nval)
+        return state['open'], outs[0][1], outs[0][2][ncell], state['arg_ok']
+    bad = None
+    try:
+        for N in range(1, 6):
+            opens = 1; cur = N; steps = 0
+            while True:
+                steps += 1
+                o, rv, cur, arg_ok = one(cur)
+                if not arg_ok and bad is None: bad = 'yywrap() does not open *++input_files (the next entry of the cursor)'
+                if o and rv != 0 and bad is None: bad = 'yywrap() opens a file but returns %d (end of input)' % rv
+                if not o and rv == 0 and bad is None: bad = 'yywrap() returns 0 (more input) without opening a file'
+                opens += o
+                if rv != 0 or steps > 8: break
+            if opens != N and bad is None:
+                bad = 'with %d input files on the command line a run opens %d of them: yywrap() stops %s' % (N, opens, 'early, so the last file is never read' if opens < N else 'late, reading past input_files[]')
+    except EvalUnknown as ex:
+        raise AnalysisBroken('C16.R12: cannot evaluate yywrap() (%s)' % ex)
+    if bad: rep.fail('C16.R12', kk, fwhere(yw), bad, replay_input='flex -t a.l b.l   with a syntax error in b.l: flex must report it')
+    else: rep.ok('C16.R12', 'yywrap: evaluated for 1..5 input files - a run opens exactly num_input_files files, each through *++input_files, and returns 0 iff it opened one')
+    return n
+
 def run(ctx):
     rep = ctx.rep
     prog = ctx.flex
@@ -1328,6 +1543,8 @@ def run(ctx):
     counts['R8'], r8table = r8(prog, rep)
     import genutil
     counts['R10'] = r10(prog, rep)
+    counts['R11'] = r11(prog, rep)
+    counts['R12'] = r12(prog, rep)
     counts['R9'] = genutil.rule_param_array_loops(rep, prog, 'C16.R9', [f for f in fns(prog) if f.file and not f.file.endswith(('scan.c', 'parse.c')) and 'stage' not in f.file])
     rep.setcount('capacity_families', len(r8table))
     rep.setcount('translation_units', len(prog.modules))
@@ -1340,6 +1557,8 @@ def run(ctx):
     rep.floor('C16.R5', 2, 'mkstate, new_rule')
     rep.floor('C16.R6', 2, 'flexend unlink, check_options outfile_created')
     rep.floor('C16.R7', 800, 'constant-index addresses of fixed arrays in flex')
+    rep.floor('C16.R11', 12, 'growth guards today: sf_push, genctbl x2, mkctbl x2, snstods, new_rule, scinstal, mk1tbl x2, cclinit, mkstate - a family whose guard is no longer a K-vs-C test drops out and trips this floor')
+    rep.floor('C16.R12', 2, 'first open in flexinit, yywrap')
     rep.floor('C16.R10', 5, 'argv reads today: scanopt x2, scanopt_err x3 (one guarded, two argv[0]), scanopt_usage argv[0], flexinit argv[0]')
     rep.floor('C16.R9', 8, 'loops over (array, count) parameter pairs in dfa.c, ecs.c, tblcmp.c')
     rep.floor('C16.R8', 38, '11 capacity families with 37 (capacity, array) pairs today; epsclosure grows current_max_dfa_size at 5 macro sites')
